@@ -48,6 +48,11 @@ pub struct Profile {
     /// the content of an inline element may begin / end with collapsible white space
     /// (<a href=x> the docs </a>)
     pub edge_space: bool,
+    /// a <ul> may hold children that are not items: an empty element carrying an id, a
+    /// named anchor, an image without alternative text, stray text or a stray link
+    pub stray_in_list: bool,
+    /// lists without any item (<ol class=c>\n</ol>), also styled ones
+    pub empty_lists: bool,
     /// a <pre> block may contain another <pre> (directly or inside an inline element)
     /// followed by more text of the outer block
     pub nested_pre: bool,
@@ -99,6 +104,8 @@ impl Profile {
             odd_hrefs: false,
             uni_space_permille: 0,
             nested_pre: false,
+            stray_in_list: false,
+            empty_lists: false,
         }
     }
     pub fn no_tables(mut self) -> Profile {
@@ -493,6 +500,34 @@ impl<'a> DocGen<'a> {
                 for _ in 0..n {
                     let c = self.item_content(depth + 1);
                     items.push(self.deco(El::with("li", c)).node());
+                }
+                if p.empty_lists && self.rng.chance(1, 10) {
+                    // no item at all, only the white space between the tags
+                    items.clear();
+                    items.push(Node::Raw("\n".into()));
+                }
+                if k == "ul" && p.stray_in_list && self.rng.chance(1, 6) {
+                    let stray = match self.rng.below(if p.links { 5 } else { 4 }) {
+                        0 => {
+                            let id = format!("s{}", self.next_id);
+                            self.next_id += 1;
+                            El::new("span").attr("id", &id).node()
+                        }
+                        1 => {
+                            let id = format!("s{}", self.next_id);
+                            self.next_id += 1;
+                            El::new("a").attr("name", &id).node()
+                        }
+                        2 => El::new("img").attr("src", "/9").attr("id", "noalt").node(),
+                        3 => self.word(),
+                        _ => {
+                            let w = self.word();
+                            let href = self.href();
+                            El::with("a", vec![w]).attr("href", &href).node()
+                        }
+                    };
+                    let at = if self.rng.chance(1, 2) { 0 } else { self.rng.below(items.len() + 1) };
+                    items.insert(at, stray);
                 }
                 let mut e = El::with(k, items);
                 if k == "ol" && p.ol_starts && self.rng.chance(1, 2) {
